@@ -113,4 +113,27 @@ def serve (cfg : Cfg) : St → List (Nat × Nat × Nat) → List (List ReqOutcom
       let (st'', r) := serveRequests cfg st' a t n
       let (outs, alive) := serve cfg st'' cs
       (r :: outs, alive)
+
+/-! ### several hosts on one port
+
+`CollectionBuilder::insert` makes the pre-host (accept-time) limiter a clone of the *first* host's limiter — the clone
+shares the first host's counters — and every host keeps its own limiter for its requests (`handle_connection`:
+`host.limiter.register`). A connection `(addr, now, host, nreq)`: one `register` on host 0's limiter at accept, then
+one per request on the limiter of the host the requests name. -/
+
+def getSt (sts : List St) (h : Nat) : St := sts.getD h {}
+def getCfg (cfgs : List Cfg) (h : Nat) : Cfg := cfgs.getD h ⟨0, Rust.USIZE_MAX, 0⟩
+
+def serveHosts (cfgs : List Cfg) : List St → List (Nat × Nat × Nat × Nat) → List (List ReqOutcome) × Bool
+  | _, [] => ([], true)
+  | sts, (a, t, h, n) :: cs =>
+    let (pre', act) := register (getCfg cfgs 0) (getSt sts 0) a t
+    let sts1 := sts.set 0 pre'
+    if act = .drop then
+      let (outs, alive) := serveHosts cfgs sts1 cs
+      ((if n = 0 then [] else [.closed]) :: outs, alive)
+    else
+      let (sth', r) := serveRequests (getCfg cfgs h) (getSt sts1 h) a t n
+      let (outs, alive) := serveHosts cfgs (sts1.set h sth') cs
+      (r :: outs, alive)
 end Limiter
